@@ -72,8 +72,8 @@ def address_corpus(tier, seed, model, cross=True):
     out = set()
     if cross:
         if tier == "quick":
-            lsel = sorted(set(LOCAL_CORE) | set(rng.sample(lp, min(len(lp), 120))))
-            dsel = sorted(set(DOMAIN_CORE) | set(rng.sample(dp, min(len(dp), 120))))
+            lsel = sorted(set(LOCAL_CORE) | set(rng.sample(lp, min(len(lp), 220))))
+            dsel = sorted(set(DOMAIN_CORE) | set(rng.sample(dp, min(len(dp), 220))))
         else:
             lsel, dsel = lp, dp
         for l in lsel:
